@@ -128,6 +128,7 @@ func (o *serOpts) nodeObj(part *Node, depth int, onPath map[string]bool) string 
 				ts = append(ts, string(tb)) // repeated
 			}
 		}
+		o.g.r.Shuffle(len(ts), func(a, b int) { ts[a], ts[b] = ts[b], ts[a] })
 		if len(ts) == 1 && o.g.coin(0.5) {
 			kvs = append(kvs, okv{"@type", ts[0]})
 		} else {
@@ -208,7 +209,13 @@ func (g *G) serialise(gr Graph, compact, embed bool) C05Doc {
 	}
 	form := "array"
 	var text string
+	fragment := true
 	switch {
+	case !compact && len(tops) > 1 && g.coin(0.15):
+		// JSON-LD 1.1: the first node object carries the others in an @included block (outside the Lean model's fragment)
+		form = "@included"
+		fragment = false
+		text = tops[0][:len(tops[0])-1] + `,"@included":[` + strings.Join(tops[1:], ",") + "]}"
 	case len(tops) == 1 && g.coin(0.5):
 		form = "single-object"
 		text = tops[0]
@@ -237,7 +244,7 @@ func (g *G) serialise(gr Graph, compact, embed bool) C05Doc {
 	if o.vocab {
 		form += "+vocab"
 	}
-	return C05Doc{Text: text, Form: form, Fragment: !compact}
+	return C05Doc{Text: text, Form: form, Fragment: fragment}
 }
 
 // a chain n0 -> n1 -> ... written flat and fully embedded (each node inside its parent), with and without
@@ -317,6 +324,35 @@ func genC05(g *G, n int, out io.Writer) {
 			propPool = []string{"p0", g.pick([]string{"data", "core", "doc", "meta"}), g.pick([]string{"shacl", "apiContract", "type", "id"}), "p3"}
 		}
 		gr := g.graph(2+g.n(6), 0.55)
+		if i%4 == 2 {
+			// nodes that are instances of many classes (the classes a profile targets can stand anywhere in the list)
+			for k := range gr {
+				if g.coin(0.5) {
+					for x := 0; x < 8+g.n(6); x++ {
+						gr[k].Types = append(gr[k].Types, fmt.Sprintf("%sK%d", NS, x))
+					}
+				}
+			}
+		}
+		// twin properties: one property of a node gets the same (two or more) values as another one
+		twinA, twinB := "", ""
+		if i%3 == 0 {
+			for k := range gr {
+				for _, pr := range gr[k].Props {
+					if len(pr.Vals) >= 2 && strings.HasPrefix(pr.Iri, NS) {
+						twinA = strings.TrimPrefix(pr.Iri, NS)
+						twinB = g.pick(propPool)
+						if twinB != twinA {
+							setProp(&gr[k], NS+twinB, append([]Val{}, pr.Vals...))
+						}
+						break
+					}
+				}
+				if twinA != "" && twinB != twinA {
+					break
+				}
+			}
+		}
 		var hubLink, hubVal string
 		if g.coin(0.6) && len(gr) >= 4 {
 			// a hub: node 0 links to three or more nodes through one predicate, and those nodes share few scalar values of
@@ -358,6 +394,16 @@ func genC05(g *G, n int, out io.Writer) {
 				up.Atoms = append(up.Atoms, Atom{Kind: "uniqueValues", Path: q, UArg: &t})
 				ix := k
 				up.Validations = append(up.Validations, Validation{Name: fmt.Sprintf("u%d", k), Class: NS + "T", Rule: Rule{Atom: &ix}})
+			}
+			// comparisons between two (multi-valued) properties: their verdict is about the two SETS of values
+			for k, kind := range []string{"equalsToProperty", "disjointWithProperty", "lessThanProperty", "moreThanOrEqualsToProperty"} {
+				a, b := PP(g.pick(propPool), false), PP(g.pick(propPool), false)
+				if twinA != "" && twinB != twinA && k < 2 {
+					a, b = PP(twinA, false), PP(twinB, false)
+				}
+				up.Atoms = append(up.Atoms, Atom{Kind: kind, Path: a, Other: &b})
+				ix := len(up.Atoms) - 1
+				up.Validations = append(up.Validations, Validation{Name: fmt.Sprintf("c%d", k), Class: NS + g.pick([]string{"T", "U"}), Rule: Rule{Atom: &ix}})
 			}
 			c.Profiles = append(c.Profiles, up.Render())
 		}
